@@ -423,7 +423,14 @@ def _template(js: ast.JoinedStr) -> tuple[str, list[ast.AST]]:
 
 def _top_kind(node: ast.AST) -> str:
     """'atomic' (call / subscript / name of such), 'product' (* / ** at the top), else 'arbitrary'."""
-    if isinstance(node, (ast.Call, ast.Subscript, ast.Constant)):
+    if isinstance(node, ast.Call):
+        # SymPy's elementary functions evaluate automatically: sin(asin(a + b)) IS a + b, cos(acos(x)) is x,
+        # sqrt(x**2) may be x - what is printed for such a call can have any top-level operator
+        f = node.func
+        if isinstance(f, ast.Attribute) and isinstance(f.value, ast.Name) and f.value.id in {"sp", "sympy"} and f.attr[:1].islower():
+            return "arbitrary"
+        return "atomic"
+    if isinstance(node, (ast.Subscript, ast.Constant)):
         return "atomic"
     if isinstance(node, ast.BinOp) and isinstance(node.op, (ast.Mult, ast.Div, ast.Pow)):
         return "product"
